@@ -116,26 +116,47 @@ def run_generic(ctx, pid, mod):
     }
     # alternative builds
     alts = []
-    if hasattr(mod, 'ALT_BUILDS'):
-        for alt in mod.ALT_BUILDS:
-            alts.append(run_alt(ctx, pid, mod, alt))
+    for alt in getattr(mod, 'ALT_BUILDS', DEFAULT_ALT_BUILDS):
+        r = run_alt(ctx, pid, mod, alt)
+        alts.append(r)
+        print('  alt build %-12s %s %s' % (r['name'], r['status'], r.get('violations', r.get('why', ''))))
     extra['alt_builds'] = alts
     return extra
 
 
+# other configurations of the same source that compile offline; the same rule tables must hold on them
+# (features are additive and `fuzzing` only adds items, so one build with everything switched on shows every line that
+# the default build compiles out; the default build shows the `not(..)` sides)
+DEFAULT_ALT_BUILDS = [
+    {'name': 'allcfg', 'features': ['--features', 'quinn-proto/qlog,quinn/lock_tracking'], 'cfgs': ['fuzzing']},
+]
+
+
 def run_alt(ctx, pid, mod, alt):
     """alt = dict(name, cfgs=[..], features=[..], packages=[..])"""
-    out = os.path.join(R.CACHE, 'facts', 'alt-%s-%s' % (alt['name'], ctx and '' or ''))
+    import fcntl
     th, _ = R.tree_hash(R.REPO)
-    out = os.path.join(R.CACHE, 'facts', 'alt-%s-%s' % (alt['name'], th))
-    if not os.path.exists(os.path.join(out, 'OK')):
-        shutil.rmtree(out, ignore_errors=True)
-        ok, log = R.run_driver(R.REPO, out, features=alt.get('features'), cfgs=alt.get('cfgs', ()),
-                               target_dir=os.path.join(R.CACHE, 'target-alt-' + alt['name']))
-        if not ok:
-            return {'name': alt['name'], 'status': 'skipped', 'why': 'does not build offline: ' + log[-300:]}
-        R.run_driver_fixtures(out)
-        open(os.path.join(out, 'OK'), 'w').write('ok')
+    out = os.path.join(R.CACHE, 'alt-facts', '%s-%s' % (alt['name'], th))
+    os.makedirs(os.path.join(R.CACHE, 'alt-facts'), exist_ok=True)
+    lock = open(os.path.join(R.CACHE, 'lock-alt-' + alt['name']), 'w')
+    fcntl.flock(lock, fcntl.LOCK_EX)
+    try:
+        if not os.path.exists(os.path.join(out, 'OK')):
+            shutil.rmtree(out, ignore_errors=True)
+            ok, log = R.run_driver(R.REPO, out, features=alt.get('features'), cfgs=alt.get('cfgs', ()),
+                                   target_dir=os.path.join(R.CACHE, 'target-alt-' + alt['name']))
+            if not ok:
+                shutil.rmtree(out, ignore_errors=True)
+                return {'name': alt['name'], 'status': 'skipped', 'why': 'does not build offline: ' + log[-300:]}
+            R.run_driver_fixtures(out)
+            open(os.path.join(out, 'OK'), 'w').write('ok')
+            # keep only the newest two alt fact dirs per build
+            ds = sorted(glob.glob(os.path.join(R.CACHE, 'alt-facts', alt['name'] + '-*')), key=os.path.getmtime, reverse=True)
+            for d in ds[2:]:
+                shutil.rmtree(d, ignore_errors=True)
+    finally:
+        fcntl.flock(lock, fcntl.LOCK_UN)
+        lock.close()
     try:
         facts = Facts(out)
         c2 = R.Ctx(pid, facts, 'thorough', 0)
